@@ -268,6 +268,53 @@ def rule_6(ctx):
     ctx.floor(len(table), 'aggregate witnesses through the registered wrapper')
 
 
+AGG_CELLS = {
+    'A1': 4, 'A2': 0, 'A4': 'txt', 'B1': 2.5, 'B2': -3, 'B3': 7, 'B4': 1, 'C1': 2 ** 62, 'C2': 2 ** 62, 'C3': 2 ** 63 - 1, 'C4': 1000,
+    'D1': '=B1*2', 'D2': '=B2*2', 'D3': '=B3*2',
+    'S1': '=SUM(A1:B4)', 'S2': '=SUM(A1:A4)+SUM(B1:B4)', 'S3': '=SUM(B4:B4,A1:B3)', 'S4': '=SUM(A1:B2,A3:B4)', 'S5': '=SUM(B1,B2,B3,B4,A1:A4)',
+    'S6': '=SUM(B4,B3,B2,B1,A1:A4)', 'AV': '=AVERAGE(A1:B4)', 'MN': '=MIN(A1:B4)', 'MX': '=MAX(A1:B4)', 'CN': '=COUNT(A1:B4)', 'CA': '=COUNTA(A1:B4)',
+    'AV2': '=AVERAGE(B1:B4,A1:A4)', 'MN2': '=MIN(B4,A1:B3)', 'MX2': '=MAX(A1:A4,B1:B4)',
+    'SP': '=SUMPRODUCT(B1:B4,B1:B4)', 'SP2': '=SUMPRODUCT(A1:A2,B1:B4)', 'SP3': '=SUMPRODUCT(B1:B2,B3:B4)',
+    'L1': '=SUM(C1:C2)', 'L2': '=SUM(C1:C1)+SUM(C2:C2)', 'L3': '=SUM(C3:C4)', 'L4': '=SUM(C3,C4)', 'L5': '=SUM(C3:C3,1000)', 'L6': '=MAX(C1:C4)',
+    'H1': '=SUM(D1:D2,D3)', 'H2': '=MAX(D1:D3)', 'H3': '=AVERAGE(D1:D3)', 'H4': '=MIN(D1:D3)+COUNT(D1:D3)',
+}
+AGG_EXPECTED = {
+    'S1': 11.5, 'S2': 11.5, 'S3': 11.5, 'S4': 11.5, 'S5': 11.5, 'S6': 11.5, 'AV': 11.5 / 6, 'MN': -3, 'MX': 7, 'CN': 6, 'CA': 7, 'AV2': 11.5 / 6,
+    'MN2': -3, 'MX2': 7, 'SP': 65.25, 'SP2': '#VALUE!', 'SP3': 2.5 * 7 - 3,
+    'L1': 2 ** 63, 'L2': 2 ** 63, 'L3': 2 ** 63 + 999, 'L4': 2 ** 63 + 999, 'L5': 2 ** 63 + 999, 'L6': 2 ** 63 - 1,
+    'H1': 13, 'H2': 14, 'H3': 13 / 3, 'H4': -3,
+}
+
+
+def rule_7(ctx):
+    """A whole witness workbook, interpreted as written: the aggregates over rectangles holding numbers, a zero, an empty cell, a
+    text, whole numbers near the 64-bit limit and formula cells - against hand-computed folds, over every split / order of the
+    same cells; then a history of edits through the evaluator against freshly compiled models."""
+    from . import workbook as W
+    from . import scenarios as S
+    from .c10 import _as_value
+    anchor = V_registered(ctx, 'SUM')
+    wb = W.Workbook(ctx, AGG_CELLS)
+    for a, w in AGG_EXPECTED.items():
+        got = wb.value('Sheet1!' + a)
+        if isinstance(got, tuple) and got and got[0] == 'error-class':
+            got = ('error', W.error_code(ctx, got[1]))
+        ctx.expect(S.same(got, _as_value(w)), anchor, f'aggregate workbook: {a} = {AGG_CELLS[a]}',
+                   f'{a} = {AGG_CELLS[a]} evaluates to {got!r}, expected {w!r}: the fold of exactly the addressed values - blanks and texts of a range '
+                   'ignored, a stored 0 counted, however the cells are split into ranges and scalars and whatever their magnitude')
+    steps = [('eval', 'H1'), ('eval', 'H2'), ('eval', 'S1'), ('set', 'B2', 40), ('eval', 'D2'), ('eval', 'H1'), ('eval', 'H2'), ('eval', 'H3'), ('eval', 'S1'),
+             ('eval', 'MN'), ('set', 'A1', -100), ('eval', 'S1'), ('eval', 'MN'), ('eval', 'AV'), ('eval', 'H4'), ('set', 'B3', 0), ('eval', 'H1'), ('eval', 'SP')]
+    hist = {k: v for k, v in AGG_CELLS.items() if k[0] in 'ABD' or k in ('H1', 'H2', 'H3', 'H4', 'S1', 'MN', 'AV', 'SP')}
+    S.check_history(ctx, anchor, 'aggregate history', hist, steps, cache={}, check_stored=False,
+                    why='An aggregate is the fold of the values its cells hold now.')
+    ctx.floor(40, 'aggregate cells + history steps')
+
+
+def V_registered(ctx, name):
+    from . import values as V
+    return V.registered(ctx, name).node
+
+
 RULES = [
     ('C14.1', 'only numbers are folded', rule_1),
     ('C14.2', 'empty folds are guarded on the filtered collection', rule_2),
@@ -275,4 +322,5 @@ RULES = [
     ('C14.4', 'COUNT/COUNTA predicates, flatten', rule_4),
     ('C14.5', 'range arrays are rebuilt from the cells on every evaluation (shared with C04.1)', rule_5),
     ('C14.6', 'aggregates through the registered wrapper on witness argument lists', rule_6),
+    ('C14.7', 'whole witness workbook: folds over splits and orders, large whole numbers, formula members, histories', rule_7),
 ]
